@@ -12,7 +12,7 @@ Differences to e2.run_diff (same Mod/Part/Func objects, same replay-case layout)
 Every (function, input) of the stated product is executed compiled and on the reference; nothing
 is sampled; the seed only rotates the order of the work groups.
 """
-import os, sys, itertools, collections, array
+import os, sys, itertools, collections, array, time, pickle, signal, traceback
 from vlib import e2, farm, runner, support
 from vlib.diff import canon, short
 
@@ -89,6 +89,20 @@ class EqRaises:
     def __repr__(self): return 'EqRaises()'
 
 
+class ItemsObj:
+    """Not a dict, but has keys()/values()/items() (the untyped dict-view loop optimisation checks the type at run time)."""
+    def __init__(self, pairs): self.pairs = list(pairs)
+    def keys(self): return [k for k, v in self.pairs]
+    def values(self): return [v for k, v in self.pairs]
+    def items(self): return list(self.pairs)
+    def __setitem__(self, k, v): self.pairs.append((k, v))
+    def __delitem__(self, k): self.pairs = [p for p in self.pairs if p[0] != k]
+    def pop(self, k): self.__delitem__(k)
+    def popitem(self): return self.pairs.pop()
+    def clear(self): del self.pairs[:]
+    def __repr__(self): return 'ItemsObj(%r)' % (self.pairs,)
+
+
 def _gen(*items):
     for i in items:
         yield i
@@ -98,7 +112,7 @@ EXTRA_NS = {
     'deque': collections.deque, 'array': array.array, 'SeqObj': SeqObj, 'ListSub': ListSub, 'TupleSub': TupleSub,
     'DictSub': DictSub, 'DictMissing': DictMissing, 'SetSub': SetSub, 'BytesSub': BytesSub,
     'BytearraySub': BytearraySub, 'Unhashable': Unhashable, 'BadHash': BadHash, 'EqRaises': EqRaises,
-    'OrderedDict': collections.OrderedDict, 'gen': _gen, 'StrSub': support.StrSub,
+    'OrderedDict': collections.OrderedDict, 'ItemsObj': ItemsObj, 'gen': _gen, 'StrSub': support.StrSub,
 }
 
 
@@ -167,8 +181,15 @@ def _expand(inputs):
     return inputs
 
 
+_PROGRESS_PATH = None      # set by run_groups in the child: the sweep records the evaluation it is about to run
+
+
 def _sweep(case):
-    light, work = case
+    """case: (light, work[, lo, hi]) - evaluations are numbered in enumeration order; only those with
+    lo <= number < hi are executed (used to resume around a crashing evaluation)."""
+    light, work = case[0], case[1]
+    lo = case[2] if len(case) > 2 else 0
+    hi = case[3] if len(case) > 3 and case[3] is not None else float('inf')
     mod, ref, kind = _get(light)
     ns = namespace()
     evals = 0
@@ -178,10 +199,19 @@ def _sweep(case):
     outs = set()
     ea, ul = light['exc_args'], light['use_log']
     outcome = e2._outcome
+    fd = os.open(_PROGRESS_PATH, os.O_RDWR | os.O_CREAT, 0o600) if _PROGRESS_PATH else None
+    k = -1
     for fname, tag, inputs in work:
         fc = getattr(mod, fname)
         fr = ref(fname)
         for inp in _expand(inputs):
+            k += 1
+            if k < lo:
+                continue
+            if k >= hi:
+                break
+            if fd is not None:
+                os.pwrite(fd, b'%-12d' % k, 0)
             codes = [_code(e) for e in inp]
             a1 = [eval(c, ns) for c in codes]
             a2 = [eval(c, ns) for c in codes]
@@ -199,10 +229,126 @@ def _sweep(case):
                     mism.append((fname, tag, tuple(inp), exp, got))
                 else:
                     more += 1
+        if k >= hi:
+            break
+    if fd is not None:
+        os.close(fd)
     return {'evals': evals, 'mismatches': mism, 'more': more, 'pairs': len(pairs), 'outs': outs}
 
 
+def _kth(work, k):
+    """The k-th evaluation (fname, tag, inp) of a work group in enumeration order."""
+    j = -1
+    for fname, tag, inputs in work:
+        n = _n(inputs)
+        if k - (j + 1) >= n:
+            j += n
+            continue
+        for inp in _expand(inputs):
+            j += 1
+            if j == k:
+                return fname, tag, tuple(inp)
+    return None
+
+
 # ----------------------------------------------------------------------------- parent side
+
+def run_groups(func, cases, procs=None, timeout=900, scratch=None):
+    """Run func(case) for every case, each in its own forked child (at most `procs` at a time).
+
+    Returns a list aligned with cases: ('ok', value) | ('crash', signum, output tail, progress) |
+    ('timeout', seconds, output tail, progress) | ('exc', traceback text); progress = number of the
+    evaluation that was running (-1 if unknown).  No multiprocessing.Pool: a child
+    that dies never blocks the others and is attributed exactly to its case."""
+    procs = procs or farm.NPROC
+    scratch = scratch or os.environ.get('VERIF_SCRATCH_DIR') or '/dev/shm'
+    results = [None] * len(cases)
+    pending = list(range(len(cases)))[::-1]
+    running = {}
+    me = os.getpid()
+
+    def prog(base):
+        try:
+            with open(base + '.prog', 'rb') as f:
+                return int(f.read(12).strip() or -1)
+        except (OSError, ValueError):
+            return -1
+
+    def tail(path):
+        try:
+            with open(path, 'r', errors='replace') as f:
+                return f.read(200000)[-3000:]
+        except OSError:
+            return ''
+
+    while pending or running:
+        while pending and len(running) < procs:
+            i = pending.pop()
+            base = os.path.join(scratch, 'g5-%d-%d' % (me, i))
+            sys.stdout.flush(); sys.stderr.flush()
+            pid = os.fork()
+            if pid == 0:
+                code = 0
+                try:
+                    fd = os.open(base + '.out', os.O_WRONLY | os.O_CREAT | os.O_TRUNC, 0o600)
+                    os.dup2(fd, 1); os.dup2(fd, 2)
+                    global _PROGRESS_PATH
+                    _PROGRESS_PATH = base + '.prog'
+                    try:
+                        val = ('ok', func(cases[i]))
+                    except BaseException:
+                        val = ('exc', traceback.format_exc())
+                    sys.stdout.flush(); sys.stderr.flush()
+                    with open(base + '.tmp', 'wb') as f:
+                        pickle.dump(val, f)
+                    os.rename(base + '.tmp', base + '.res')
+                except BaseException:
+                    code = 3
+                finally:
+                    os._exit(code)
+            running[pid] = (i, time.time(), base)
+        progressed = False
+        for pid in list(running):
+            i, t0, base = running[pid]
+            try:
+                wpid, st = os.waitpid(pid, os.WNOHANG)
+            except ChildProcessError:
+                wpid, st = pid, 0x100
+            if wpid:
+                progressed = True
+                del running[pid]
+                if os.WIFSIGNALED(st):
+                    results[i] = ('crash', os.WTERMSIG(st), tail(base + '.out'), prog(base))
+                elif os.path.exists(base + '.res'):
+                    try:
+                        with open(base + '.res', 'rb') as f:
+                            results[i] = pickle.load(f)
+                    except Exception:
+                        results[i] = ('exc', 'unreadable result: ' + traceback.format_exc())
+                else:
+                    results[i] = ('crash', -os.WEXITSTATUS(st), tail(base + '.out'), prog(base))
+            elif time.time() - t0 > timeout:
+                progressed = True
+                try:
+                    os.kill(pid, signal.SIGKILL)
+                except ProcessLookupError:
+                    pass
+                try:
+                    os.waitpid(pid, 0)
+                except ChildProcessError:
+                    pass
+                del running[pid]
+                results[i] = ('timeout', timeout, tail(base + '.out'), prog(base))
+            if pid not in running:
+                for ext in ('.out', '.res', '.tmp', '.prog'):
+                    try:
+                        os.unlink(base + ext)
+                    except OSError:
+                        pass
+        if not progressed:
+            time.sleep(0.005)
+    return results
+
 def _ship(inputs):
     if isinstance(inputs, Prod):
         return ('prod', inputs.axes)
@@ -218,20 +364,8 @@ def _n(inputs):
     return len(inputs)
 
 
-def _split_work(work):
-    """Split a crashed work group into smaller groups (function -> input chunks -> singles)."""
-    if len(work) > 1:
-        return [[w] for w in work]
-    fname, tag, inputs = work[0]
-    allin = list(_expand(inputs))
-    if len(allin) <= 1:
-        return None
-    step = max(1, -(-len(allin) // 16))
-    return [[(fname, tag, allin[i:i + step])] for i in range(0, len(allin), step)]
-
-
 def run_diff(ctx, mods, keyfn=default_key, on_build_failure='violation', workdir=None, timeout=900,
-             reach=None, groups_per_mod=4, max_crash_reports=40):
+             reach=None, groups_per_mod=4, max_crash_reports=40, build_key=None, max_group=60000):
     workdir = workdir or ctx.workdir('e2')
     built, failures = e2.build_all(ctx, mods, workdir)
     stats = {'evaluations': 0, 'pairs': 0, 'programs': 0, 'modules_built': len(built), 'mismatches': 0,
@@ -240,8 +374,8 @@ def run_diff(ctx, mods, keyfn=default_key, on_build_failure='violation', workdir
     for m, r in failures:
         tags = [f.tag for f in m.funcs]
         if on_build_failure == 'violation':
-            ctx.violation('build-failure|%s|%s' % (r.stage, tags[0] if tags else m.name),
-                          'program does not build (%s): %s' % (r.stage, r.errors[-800:]),
+            bk = build_key(m, r) if build_key else 'build-failure|%s|%s' % (r.stage, tags[0] if tags else m.name)
+            ctx.violation(bk, 'program %s does not build (%s): %s' % (tags[:1], r.stage, r.errors[-800:]),
                           {'kind': 'build', 'source': m.source, 'ext': m.ext, 'directives': m.directives,
                            'cflags': list(m.cflags), 'cplus': m.cplus, 'stage': r.stage, 'errors': r.errors[-3000:]})
         else:
@@ -272,6 +406,13 @@ def run_diff(ctx, mods, keyfn=default_key, on_build_failure='violation', workdir
         cur, curn = [], 0
         for f in fl:
             ins = shipped[f.inputs]
+            if _n(ins) > max_group and isinstance(ins, tuple) and len(ins[1][0]) > 1:
+                # a huge product: split along its first axis into groups of their own
+                ax0 = ins[1][0]
+                per0 = max(1, len(ax0) * max_group // _n(ins))
+                for j in range(0, len(ax0), per0):
+                    cases.append((light, [(f.name, f.tag, ('prod', [ax0[j:j + per0]] + ins[1][1:]))])); owners.append(m)
+                continue
             cur.append((f.name, f.tag, ins)); curn += _n(ins)
             if curn >= target:
                 cases.append((light, cur)); owners.append(m); cur, curn = [], 0
@@ -296,36 +437,46 @@ def run_diff(ctx, mods, keyfn=default_key, on_build_failure='violation', workdir
 
     todo = list(zip(cases, owners))
     rounds = 0
+    unrefined = 0
     while todo:
-        results = runner.run_cases(_sweep, [c for c, _ in todo], chunk=1, timeout=timeout, scratch=ctx.scratch)
+        results = run_groups(_sweep, [c for c, _ in todo], timeout=timeout, scratch=ctx.scratch)
         nxt = []
-        for ((light, work), m), r in zip(todo, results):
+        for (case, m), r in zip(todo, results):
+            light, work = case[0], case[1]
+            lo = case[2] if len(case) > 2 else 0
+            hi = case[3] if len(case) > 3 else None
             if r[0] == 'ok':
                 handle(m, r[1])
             elif r[0] == 'exc':
                 ctx.violation('harness-exc|%s' % m.name, 'driver exception: %s' % r[1][-1500:],
                               {'kind': 'harness', 'source': m.source, 'trace': r[1][-3000:]})
             else:
-                parts = _split_work(work)
-                if parts is None:
-                    fname, tag, inputs = work[0]
-                    inp = tuple(list(_expand(inputs))[0])
-                    stats['crashes'] += 1
-                    stats['evaluations'] += 1
-                    got = ('crash', r[0], r[1])
-                    if stats['crashes'] <= max_crash_reports:
-                        ctx.violation(keyfn(tag, inp, ('ok', ('?', '?')), got),
-                                      '%s%r: %s %s; output tail: %s' % (tag, inp, r[0], r[1], (r[2] or '')[-400:]),
-                                      e2._replay_case(m, fname, tag, inp, None, got))
-                else:
-                    nxt.extend(((light, p), m) for p in parts)
+                k = r[3]
+                ev = _kth(work, k) if k >= 0 else None
+                if ev is None:
+                    ctx.violation('harness-crash|%s' % m.name, '%s %s outside any evaluation (module load?): %s'
+                                  % (r[0], r[1], (r[2] or '')[-600:]), {'kind': 'harness', 'source': m.source})
+                    continue
+                fname, tag, inp = ev
+                stats['crashes'] += 1
+                stats['evaluations'] += 1
+                got = ('crash', r[0], r[1])
+                ctx.violation(keyfn(tag, inp, ('ok', ('?', '?')), got),
+                              '%s%r: %s %s; output tail: %s' % (tag, inp, r[0], r[1], (r[2] or '')[-400:]),
+                              e2._replay_case(m, fname, tag, inp, None, got))
+                if stats['crashes'] > max_crash_reports:
+                    unrefined += 1
+                    continue
+                # resume around the crashing evaluation
+                if k > lo:
+                    nxt.append(((light, work, lo, k), m))
+                nxt.append(((light, work, k + 1, hi), m))
         if nxt:
-            ctx.log('refining %d groups after crash/timeout' % len(nxt))
-            timeout = 120
+            ctx.log('resuming %d partial groups around crashing/hanging evaluations' % len(nxt))
         todo = nxt
         rounds += 1
-        if rounds > 12:
-            break
+    if unrefined:
+        stats['unrefined_groups'] = unrefined
     stats['distinct_outcomes'] = len(allouts)
     return stats
 
@@ -343,8 +494,8 @@ def replay(ctx, case):
         return 'does not build (%s): %s' % (r.stage, r.errors[-600:])
     light = dict(name=name, so=r.so, ref=tuple(case['ref']), exc_args=case['exc_args'], use_log=case['use_log'],
                  env=case.get('env'))
-    res = runner.run_cases(_sweep, [(light, [(case['fname'], case['tag'], [tuple(case['input'])])])],
-                           timeout=120, scratch=ctx.scratch)[0]
+    res = run_groups(_sweep, [(light, [(case['fname'], case['tag'], [tuple(case['input'])])])],
+                     timeout=120, scratch=ctx.scratch)[0]
     if res[0] == 'ok':
         mm = res[1]['mismatches']
         if mm:
@@ -362,6 +513,10 @@ def cov_from(st, rule, samples, extra=None):
     if st.get('rejected'):
         cov['rejected'] = [(t[:3], s, e[-200:]) for t, s, e in st['rejected']][:20]
         cov['rejected_count'] = len(st['rejected'])
+    if st.get('unrefined_groups'):
+        cov['exhaustive'] = False
+        cov['cap'] = ('%d work groups were not resumed after the crash-report cap was reached'
+                      % st['unrefined_groups'])
     if extra:
         cov.update(extra)
     return cov
